@@ -50,9 +50,9 @@ def load_known():
             line = line.strip()
             if not line or line.startswith('#'):
                 continue
-            m = re.match(r'known: property=(\S+) key=(\S+) (.*)', line)
+            m = re.match(r'known: property=(\S+) key=(\S+) (?:sig=(\S+) )?(.*)', line)
             if m:
-                known.append({'property': m.group(1), 'key': m.group(2), 'what': m.group(3)})
+                known.append({'property': m.group(1), 'key': m.group(2), 'sigs': set(m.group(3).split(',')) if m.group(3) else None, 'what': m.group(4)})
             m = re.match(r'fixed: property=(\S+) (\S+) (.*)', line)
             if m:
                 fixed.append({'property': m.group(1), 'commit': m.group(2), 'what': m.group(3)})
@@ -151,7 +151,9 @@ def main(argv=None):
     violations, known_hits = [], []
     for o in refuted:
         key = o.get('finding_key') or o['name']
-        if key in known_keys:
+        # a listed finding suppresses exactly the failure it describes: same obligation family AND, where the entry carries
+        # signatures, the same failing residual; a different failure of the same obligation is reported
+        if key in known_keys and (known_keys[key].get('sigs') is None or o.get('finding_sig') in known_keys[key]['sigs']):
             known_hits.append((o, known_keys[key]))
         else:
             violations.append(o)
